@@ -173,3 +173,49 @@ Print Assumptions C01_datagram_alloc_linear.
 Theorem C01_ExtendedReport_alloc : forall b x, XR_unmarshal b = Ok x -> 8 + blocks_wire (xr_blocks x) <= len b.
 Proof. exact XR_unmarshal_alloc. Qed.
 Print Assumptions C01_ExtendedReport_alloc.
+
+(* BEGIN source-translation (generated by tools/mksourceprops.py; do not edit by hand) *)
+(* the decoders as translated from the Go source text on this run never panic and never run out of fuel (from the model-level totality theorems above through the equivalences).
+   Gen/Funcs.v (module GoSrc) is written by srcgen/trans.go from /repo on every run; Lib/GoSem.v gives the meaning of its primitives. *)
+From RTCP Require Import Lib.Base Lib.GoSem Gen.Consts Gen.Funcs Model.Header Model.Reports Model.Sdes Model.ByeApp Model.Feedback Model.Twcc Model.Ccfb Model.Packet Proofs.SourceEquiv Proofs.SrcConv Proofs.SourceByeApp Proofs.SourceCcfb Proofs.SourceCompound Proofs.SourceCompoundClosed Proofs.SourceFeedback1 Proofs.SourceFeedback2 Proofs.SourcePacket Proofs.SourceRR Proofs.SourceSR Proofs.SourceSdes Proofs.SourceTwccDec Proofs.SourceTwccEnc.
+Module C01_SourceFeedback2.
+Import Proofs.SourceFeedback2.
+Local Open Scope Z_scope.
+Theorem C01_source_FullIntraRequest_Unmarshal_total : forall p0 b,
+  GoSrc.FullIntraRequest_Unmarshal p0 b <> Panic /\ GoSrc.FullIntraRequest_Unmarshal p0 b <> Fuel.
+Proof. exact src_FullIntraRequest_Unmarshal_total. Qed.
+Print Assumptions C01_source_FullIntraRequest_Unmarshal_total.
+Theorem C01_source_SliceLossIndication_Unmarshal_total : forall p0 b,
+  GoSrc.SliceLossIndication_Unmarshal p0 b <> Panic /\ GoSrc.SliceLossIndication_Unmarshal p0 b <> Fuel.
+Proof. exact src_SliceLossIndication_Unmarshal_total. Qed.
+Print Assumptions C01_source_SliceLossIndication_Unmarshal_total.
+End C01_SourceFeedback2.
+Module C01_SourcePacket.
+Import Proofs.SourcePacket.
+Local Open Scope Z_scope.
+Theorem C01_source_Unmarshal_total : forall b, GoSrc.Unmarshal b <> Panic /\ GoSrc.Unmarshal b <> Fuel.
+Proof. exact src_Unmarshal_total. Qed.
+Print Assumptions C01_source_Unmarshal_total.
+End C01_SourcePacket.
+Module C01_SourceSdes.
+Import Proofs.SourceSdes.
+Local Open Scope Z_scope.
+Theorem C01_source_SourceDescriptionItem_Unmarshal_total : forall s0 b,
+  GoSrc.SourceDescriptionItem_Unmarshal s0 b <> Panic /\ GoSrc.SourceDescriptionItem_Unmarshal s0 b <> Fuel.
+Proof. exact src_SourceDescriptionItem_Unmarshal_total. Qed.
+Print Assumptions C01_source_SourceDescriptionItem_Unmarshal_total.
+Theorem C01_source_SourceDescriptionChunk_Unmarshal_total : forall s0 b,
+  GoSrc.SourceDescriptionChunk_Unmarshal s0 b <> Panic /\ GoSrc.SourceDescriptionChunk_Unmarshal s0 b <> Fuel.
+Proof. exact src_SourceDescriptionChunk_Unmarshal_total. Qed.
+Print Assumptions C01_source_SourceDescriptionChunk_Unmarshal_total.
+Theorem C01_source_SourceDescription_Unmarshal_total : forall b,
+  GoSrc.SourceDescription_Unmarshal GoSrc.zero_SourceDescription b <> Panic /\
+  GoSrc.SourceDescription_Unmarshal GoSrc.zero_SourceDescription b <> Fuel.
+Proof. exact src_SourceDescription_Unmarshal_total. Qed.
+Print Assumptions C01_source_SourceDescription_Unmarshal_total.
+Theorem C01_source_RawPacket_Unmarshal_total : forall r0 b,
+  GoSrc.RawPacket_Unmarshal r0 b <> Panic /\ GoSrc.RawPacket_Unmarshal r0 b <> Fuel.
+Proof. exact src_RawPacket_Unmarshal_total. Qed.
+Print Assumptions C01_source_RawPacket_Unmarshal_total.
+End C01_SourceSdes.
+(* END source-translation *)
